@@ -494,10 +494,31 @@ def rule_selfloop_convention(m):
                     else:
                         res.broken('F-ORD.iii: %s adds count(list, vertex) but not as `size() [+ count when self-loops count twice]`' % f.display())
                     continue
+            if tn.endswith('::getAdjacencyMatrix'):
+                # every accumulation into a matrix entry happens once per list entry, i.e. inside the innermost neighbour loop
+                inner_loops = [n for n in f.nodes if n['k'] == 'CXXForRangeStmt' and
+                               any(f.nodes[a]['k'] in ('CXXForRangeStmt', 'ForStmt') for a in f.ancestors(n['i']))]
+                acc = [n for n in f.nodes if (n['k'] in ('CompoundAssignOperator', 'BinaryOperator') and n.get('op') in ('+=', '-=')) or
+                       (n['k'] == 'UnaryOperator' and n.get('op') in ('++', '--'))]
+                acc = [n for n in acc if ctx.tt.t(n['c'][0])[0] == 'idx' and ctx.tt.t(n['c'][0])[1][0] == 'idx']
+                outside = [n for n in acc if not any(n['i'] in f.descendants(l['body']) for l in inner_loops)]
+                if inner_loops and outside:
+                    res.fail(Finding('F-ORD.iii', f.display(), 'matrix entry adjusted outside the entry loop', f.nloc(outside[0]['i']),
+                                     '`%s` changes a matrix entry once per vertex, outside the loop over the neighbour list: the entry of a '
+                                     'pair no longer grows by a fixed amount per list entry, so k copies of a self-loop (forced duplicates) '
+                                     'are not counted 2k / k times' % f.expr_text(outside[0]['i'])[:50]))
+                    continue
+            if not incs:
+                incs = [n for n in f.nodes if n['k'] == 'UnaryOperator' and n.get('op') == '++' and
+                        ctx.tt.t(n['c'][0])[0] == 'idx' and ctx.tt.t(n['c'][0])[1][0] == 'idx'][:1]
+                if not incs:
+                    res.broken('F-ORD.iii: expected an accumulation in %s' % f.display())
+                    continue
             # every increment of the accumulator in the loop body (`+= e`, `++`), summed along the path each valuation takes:
             # the ternary, the if/else and the split forms are the same function of (loop?, flag)
             tgt0 = ctx.tt.t(incs[0]['c'][0])
-            steps = [(n, ctx.unconst(ctx.resolve(ctx.tt.t(n['c'][1])))) for n in incs if ctx.tt.t(n['c'][0]) == tgt0]
+            steps = [(n, ctx.unconst(ctx.resolve(ctx.tt.t(n['c'][1])))) for n in incs
+                     if n['k'] != 'UnaryOperator' and ctx.tt.t(n['c'][0]) == tgt0]
             for n in f.nodes:
                 if n['k'] == 'UnaryOperator' and n.get('op') == '++' and ctx.tt.t(n['c'][0]) == tgt0 and \
                         not any(f.nodes[a]['k'] in ('ForStmt',) and f.nodes[a].get('inc', -1) in ([n['i']] + list(f.ancestors(n['i'])))
